@@ -67,4 +67,25 @@ def p2sVecPa (ra dec ra2 dec2 : α) : α := bear ra dec ra2 dec2
 def offX (x r theta : α) : α := x + r * R.cos (R.radians theta)
 def offY (y r theta : α) : α := y + r * R.sin (R.radians theta)
 
+/-! ### plumbing around the WCS calls (fallbacks of the regenerated pieces of the deepening round) -/
+
+/-- `pix2sky((x, y))` hands `[[y, x]]` to the WCS: FITS axis 1 gets the caller's SECOND coordinate … -/
+def pix2skyP1 (_pixel_0 pixel_1 : α) : α := pixel_1
+/-- … and FITS axis 2 the FIRST -/
+def pix2skyP2 (pixel_0 _pixel_1 : α) : α := pixel_0
+/-- the `origin` argument of `all_pix2world` in pix2sky -/
+def pix2skyOrigin : α := R.ofNat 1
+/-- `sky2pix` returns `[pixel[0][1], pixel[0][0]]` -/
+def sky2pixX (_w2p_0 w2p_1 : α) : α := w2p_1
+def sky2pixY (w2p_0 _w2p_1 : α) : α := w2p_0
+/-- the `origin` argument of `all_world2pix` in sky2pix -/
+def sky2pixOrigin : α := R.ofNat 1
+
+def p2sVecOffX (pixel_0 _pixel_1 r theta : α) : α := offX pixel_0 r theta
+def p2sVecOffY (_pixel_0 pixel_1 r theta : α) : α := offY pixel_1 r theta
+def p2sEllOff1X (pixel_0 _pixel_1 sx _sy theta : α) : α := offX pixel_0 sx theta
+def p2sEllOff1Y (_pixel_0 pixel_1 sx _sy theta : α) : α := offY pixel_1 sx theta
+def p2sEllOff2X (pixel_0 _pixel_1 _sx sy theta : α) : α := offX pixel_0 sy (theta - R.ofNat 90)
+def p2sEllOff2Y (_pixel_0 pixel_1 _sx sy theta : α) : α := offY pixel_1 sy (theta - R.ofNat 90)
+
 end Aegean.Model.C16Hand
